@@ -670,6 +670,14 @@ fn check_case(rt: &tokio::runtime::Runtime, name: &str, ops: &[String], model: &
         }
     };
     let mut nd = 0;
+    if std::env::var("VH_C06_DUMP").is_ok() {
+        for (req, ans) in &out.lines {
+            eprintln!("  {req:40} => {ans}");
+        }
+        for f in &out.fails {
+            eprintln!("  FAIL {f:?}");
+        }
+    }
     if let Some(m) = model.as_mut() {
         let mut ctx: Vec<String> = vec![];
         for (req, ans) in &out.lines {
